@@ -176,6 +176,35 @@ def run_check(
                         p.cancel()
     except Exception as e:
         harness_errors.append("pool: " + repr(e))
+    if any("BrokenProcessPool" in e_ for e_ in harness_errors) and not budget_hit:
+        # a worker process died (the code under test crashed the interpreter: heap corruption, abort in a C extension) and
+        # took the pool with it.  The runs that did not complete are executed again, every one in a forked child of its
+        # worker (simkit.isolate), so that a crash costs one run: ordinary violations of the other runs are still found
+        # and reported; a run whose child dies is recorded as such.
+        done = {r["i"] for r in results}
+        missing = [i for i in range(n_runs) if i not in done]
+        harness_errors = [e_ for e_ in harness_errors if "BrokenProcessPool" not in e_]
+        harness_errors.append(f"a worker process died during the search; {len(missing)} runs were executed again in isolated child processes")
+        os.environ["VERIF_ISOLATE_RUNS"] = "1"
+        try:
+            with ProcessPoolExecutor(max_workers=workers, mp_context=mp, initializer=_worker_init, initargs=(engine_name, ctx)) as pool:
+                futs = [pool.submit(_run_batch, missing[k : k + batch]) for k in range(0, len(missing), batch)]
+                pending = set(futs)
+                for fut in as_completed(futs):
+                    pending.discard(fut)
+                    try:
+                        results.extend(fut.result())
+                    except Exception as e:  # noqa: BLE001
+                        if not fut.cancelled():
+                            harness_errors.append(repr(e))
+                    if time.time() - t0 > 2 * wall_budget and pending:
+                        budget_hit = True
+                        for p in pending:
+                            p.cancel()
+        except Exception as e:  # noqa: BLE001
+            harness_errors.append("pool (isolated re-run): " + repr(e))
+        finally:
+            os.environ.pop("VERIF_ISOLATE_RUNS", None)
     results.sort(key=lambda r: r["i"])
     for r in results:
         if r["error"]:
